@@ -770,8 +770,44 @@ def _canonical_object_rename(fn):
     return {}
 
 
+_REF_PARAMS = None
+
+
+def _canonical_param_rename(fn):
+    """{name: reference name} for the parameters of a function of the reference tree (vp/cparams_ref.json: name and type of
+    every parameter of every function, by position) that are called something else today.  Parameter names are not part of a C
+    function's meaning; the rules name parameters the way the reference tree does, so the program is normalised to those names.
+    Only applied when the number and the types of the parameters are unchanged and no other variable of the function already
+    carries a reference name; otherwise nothing is renamed and the rules report what they cannot find (exit 2)."""
+    global _REF_PARAMS
+    if _REF_PARAMS is None:
+        import json
+        import os
+        with open(os.path.join(os.path.dirname(os.path.abspath(__file__)), "cparams_ref.json")) as f:
+            _REF_PARAMS = json.load(f)
+    ref = _REF_PARAMS.get(fn.name)
+    ps = [p for p in fn.children if p.kind == "ParmVarDecl"]
+    if not ref or len(ref) != len(ps):
+        return {}
+
+    def ty(t):
+        return t.replace("const ", "").replace(" ", "")
+    if any(ty(p.type) != ty(t) for p, (_n, t) in zip(ps, ref)):
+        return {}
+    ren = {p.name: n for p, (n, _t) in zip(ps, ref) if p.name and p.name != n}
+    if not ren:
+        return {}
+    others = {x.name for x in fn.walk() if x.kind in ("ParmVarDecl", "VarDecl") and x.name} - set(ren)
+    if set(ren.values()) & others:
+        return {}
+    return ren
+
+
 def flatten(tu, fn):
-    ren = _canonical_object_rename(fn)
+    ren = _canonical_param_rename(fn)
+    obj = _canonical_object_rename(fn)
+    if obj and not (set(obj) & set(ren)) and not (set(obj.values()) & set(ren.values())):
+        ren = dict(ren, **obj)
     root = clone(fn, tu, None, ren) if ren else clone(fn, tu)
     if ren:
         for x in root.walk():
